@@ -221,6 +221,15 @@ pub fn run(ctx: &Ctx, rep: &mut Report) {
                 if acc && s.name == "small 64-bit" {
                     accepted_flips_small.push((pos, bit));
                 }
+                if acc {
+                    // where do accepted-and-identical flips sit? (reported as min/max byte per file)
+                    let kmin = format!("min_accepted_flip_byte[{}]", s.name);
+                    let kmax = format!("max_accepted_flip_byte[{}]", s.name);
+                    let cur_min = rep.extra.get(&kmin).and_then(|v| v.as_u64()).unwrap_or(u64::MAX);
+                    let cur_max = rep.extra.get(&kmax).and_then(|v| v.as_u64()).unwrap_or(0);
+                    rep.extra.insert(kmin, json!(cur_min.min(pos as u64)));
+                    rep.extra.insert(kmax, json!(cur_max.max(pos as u64)));
+                }
             }
             if pos % 64 == 0 && ctx.expired() {
                 rep.capped = true;
